@@ -9,13 +9,14 @@ _FSTR = re.compile(r"^\s*f(['\"]).*\1\s*$")
 
 AWKWARD_STR = ['', ' ', 'yes', 'no', 'on', '~', 'null', 'Null', 'true', '1e3', '0x10', '010', '1_000', '.5', '-', '?', '-.inf',
                'a: b', '- x', '#c', "it's", 'say "hi"', 'multi\nline', 'tab\there', 'é中😀', '{x}', '[y]', '!tag', '&a', '*a', '%d',
-               '@x', '`q`', 'a,b', 'trail ', ' lead', '1.0', '2001-01-01x', 'key: value', '|', '>', "''", '""', '\\n', 'x' * 90]
+               '@x', '`q`', 'a,b', 'trail ', ' lead', '1.0', '2001-01-01x', 'key: value', '|', '>', "''", '""', '\\n', 'x' * 90,
+               "f'{1+1}'", 'f"a"', '12', '-3', '1.5e+3', 'two\nlines']
 
 _text = st.text(alphabet=st.sampled_from(list('abcxyz019 _-.:,#\'"{}[]!&*?|>%@`\\/\n\t') + ['é', '中', '😀']), max_size=12)
 
 
 def _ok_str(s):
-    return not _FSTR.match(s)
+    return True     # f-string look-alikes are ordinary strings as long as they are quoted: the renderer takes care of that
 
 
 STRINGS = st.one_of(st.sampled_from(['a', 'b', 'x', 'foo', 'bar']), st.sampled_from(AWKWARD_STR), _text).filter(_ok_str)
@@ -24,7 +25,7 @@ FLOATS = st.one_of(st.sampled_from([0.0, -0.0, 1.5, -2.25, 1e22, 1e-7, float('in
                    st.floats(allow_nan=False, allow_infinity=False, width=64))
 SCALARS = st.one_of(st.none(), st.booleans(), INTS, FLOATS, STRINGS)
 SIMPLE_SCALARS = st.one_of(st.none(), st.booleans(), st.integers(-3, 9), st.sampled_from([1.5, -0.5]), st.sampled_from(['a', 'b', 's', '', 'yes']))
-QUOTES = st.sampled_from(['plain', 'plain', 'single', 'double', 'alt'])
+QUOTES = st.sampled_from(['plain', 'plain', 'single', 'double', 'alt', 'block'])
 
 _forbidden = None
 
